@@ -41,6 +41,8 @@ struct World {
     acked: Arc<Mutex<BTreeMap<i64, String>>>,
     submitted: Arc<Mutex<BTreeMap<i64, String>>>,
     writers: u32,
+    /// graceful shutdown has begun: the server accepts no new requests
+    closed: Arc<std::sync::atomic::AtomicBool>,
 }
 
 type Inc = (Arc<Ingester>, tokio::task::JoinHandle<()>, Arc<std::sync::atomic::AtomicUsize>);
@@ -91,7 +93,7 @@ async fn start_incarnation(w: &World) -> Option<Inc> {
                 let op = w.queue.lock().unwrap().pop_front();
                 let Some((variant, rows, pause)) = op else { return };
                 sim::yield_point(0, &format!("writer{wi} before write")).await;
-                if !sim::alive(0, my_inc) {
+                if !sim::alive(0, my_inc) || w.closed.load(std::sync::atomic::Ordering::SeqCst) {
                     return;
                 }
                 let b = batch(variant, &rows);
@@ -236,6 +238,7 @@ fn scen(spec: RunSpec) -> ScenFut {
             acked: Arc::new(Mutex::new(BTreeMap::new())),
             submitted: Arc::new(Mutex::new(BTreeMap::new())),
             writers,
+            closed: Arc::new(std::sync::atomic::AtomicBool::new(false)),
         };
         // supervisor loop
         let mut started_inc = sim::inc(0);
@@ -312,8 +315,16 @@ fn scen(spec: RunSpec) -> ScenFut {
             disk::cleanup_scratch();
             return;
         };
-        // ending (A): graceful shutdown — requests still in flight are allowed to return first
-        // (the server drains its handlers), then the final flush must make everything queryable
+        // ending (A): graceful shutdown — the rest of the workload (if restarts ran out before the queue
+        // was drained) is written fault-free first; then the server stops accepting requests, requests
+        // still in flight are allowed to return (the server drains its handlers), and the final flush
+        // must make everything queryable
+        let mut waited = 0;
+        while !world.queue.lock().unwrap().is_empty() && waited < 100 {
+            tokio::time::sleep(Duration::from_secs(10)).await;
+            waited += 1;
+        }
+        world.closed.store(true, std::sync::atomic::Ordering::SeqCst);
         let mut waited = 0;
         while inflight.load(std::sync::atomic::Ordering::SeqCst) > 0 && waited < 100 {
             tokio::time::sleep(Duration::from_secs(10)).await;
